@@ -19,6 +19,6 @@ m = dict(version=1, setup_cmd="./setup.sh",
   hooks=dict(guard="QUANTO_VERIF", enable="no source hooks: the checks import the unmodified /repo working tree under a TorchDispatchMode; QUANTO_VERIF=1 is exported by ./check but nothing in /repo reads it", baseline_off_cmd="cd /repo && /venv/bin/python -m pytest -ra -q -p no:cacheprovider --timeout=900 --continue-on-collection-errors", source_commits=[], add_only=True),
   engines=[dict(name="symt", path="/verif/symt", serves_properties=sorted(claimed), kind_free_text="concolic symbolic execution of the real quanto/PyTorch code at the ATen operator boundary (TorchDispatchMode + shadow memory of hash-consed terms), decided by z3 in three domains: BIT (FP/BV exact), RERR (reals with bounded rounding errors), ALG (term identity/support); CrossHair for pure-Python slices")],
   checks=checks, not_applicable=na,
-  notes="Every check re-runs /repo's current working tree; counterexamples are replayed on plain quanto before a VIOLATION line is printed; known findings (status known) and repaired defects (status fixed, with the /repo commit) are listed in /verif/known_findings.json; eight unguarded 'fix:' commits were made in /repo (MaxOptimizer range contains zero; calibrate_input momentum; stack fallback; split sizes; copy_ into a plain tensor; lt for float8; AbsmaxOptimizer never returns a zero scale; activation scale buffers in the module dtype) - see DESIGN.md section 12. No source hooks exist: QUANTO_VERIF is exported by ./check but nothing in /repo reads it.")
+  notes="Every check re-runs /repo's current working tree; counterexamples are replayed on plain quanto before a VIOLATION line is printed; known findings (status known) and repaired defects (status fixed, with the /repo commit) are listed in /verif/known_findings.json; thirteen unguarded 'fix:' commits were made in /repo (MaxOptimizer range contains zero; calibrate_input momentum; stack fallback; split sizes; copy_ into a plain tensor; lt for float8; AbsmaxOptimizer never returns a zero scale; activation scale buffers in the module dtype; integer mm with scales along the contraction; returned activations own their scale; re-entered Calibration removes all hooks; GEMM wrappers accept non-contiguous batches; t() below rank 2) - see DESIGN.md section 12. No source hooks exist: QUANTO_VERIF is exported by ./check but nothing in /repo reads it.")
 json.dump(m, open('/verif/MANIFEST.json','w'), indent=1)
 print(len(checks), 'claimed', len(na), 'n/a')
